@@ -955,7 +955,7 @@ def b_dict(ip, st, *args, **kwargs):
     if len(args) == 1 and not kwargs:
         x = st.force(args[0])
         if isinstance(x, ModelObj) and getattr(x, "py_class", None) is dict:
-            return x.py_call(ip, st, "copy", [], {})
+            return x.py_call(ip, st, "copy", [], {})  # (SFMap: a new SFMap; an instance __dict__ view: a constant-key dict)
         if isinstance(x, DRef):
             return DRef(x.d)
     if _all_conc(args) and _all_conc(list(kwargs.values())):
